@@ -112,18 +112,32 @@ func (p *RawParams) AddUpload(upload Upload, key, path string) *gqlerror.Error {
 		if ptr == nil {
 			return gqlerror.Errorf("path is missing \"variables.\" prefix, key: %s, path: %s", key, path)
 		}
+		invalidPath := gqlerror.Errorf("invalid operations paths for key %s", key)
 		if index, parseNbrErr := strconv.Atoi(p); parseNbrErr == nil {
-			if last {
-				ptr.([]any)[index] = upload
-			} else {
-				ptr = ptr.([]any)[index]
+			if list, ok := ptr.([]any); ok {
+				if index < 0 || index >= len(list) {
+					return invalidPath
+				}
+				if last {
+					list[index] = upload
+				} else {
+					ptr = list[index]
+				}
+				continue
 			}
+		}
+		// a key of an object (also a numeric one)
+		object, ok := ptr.(map[string]any)
+		if !ok {
+			return invalidPath
+		}
+		if last {
+			if object == nil {
+				return invalidPath
+			}
+			object[p] = upload
 		} else {
-			if last {
-				ptr.(map[string]any)[p] = upload
-			} else {
-				ptr = ptr.(map[string]any)[p]
-			}
+			ptr = object[p]
 		}
 	}
 
